@@ -152,7 +152,13 @@ impl C13 {
             Some(n) => Req::TypedVec { n, base },
             None => Req::TypedTuple { arity, rot, base },
         };
-        sc.callers.push((ms(20), vec![Step::Do(req.clone()), Step::Think(ms(r.below(150) as u64)), Step::Do(req.clone())]));
+        // every third session: a request abandoned by its caller (queued / in flight) right before the list
+        let mut first = Vec::new();
+        if i % 3 == 2 {
+            first.push(Step::CancelAfter(ms(r.below(4) as u64), Req::Raw { shape: r.below(7) as u64 }));
+        }
+        first.extend([Step::Do(req.clone()), Step::Think(ms(r.below(150) as u64)), Step::Do(req.clone())]);
+        sc.callers.push((ms(20), first));
         // one concurrent caller
         sc.callers.push((ms(20 + r.below(3) as u64), vec![Step::Do(Req::Raw { shape: r.below(7) as u64 }), Step::Do(Req::TypedUpdate { token: 7 })]));
         sc.world.seg = vec![[SegPolicy::Whole, SegPolicy::PerLine, SegPolicy::PerByte, SegPolicy::Random(5)][r.below(4)].clone()];
